@@ -18,5 +18,9 @@ CHECK = {
              "^TestVerif_C03_Isolation$",
              quick={"checks": 3000, "shards": 1, "cap": 300},
              thorough={"checks": 30000, "shards": 2, "cap": 600}),
+        # the capability report of the running server (sys/capabilities*) agrees with the reference and with what is permitted
+        unit("capabilities-api", "vault", ["vault/c03api_test.go", "vault/c02_test.go"], "^TestVerif_C03_CapabilitiesAPI$",
+             quick={"checks": 120, "shards": 1, "cap": 600},
+             thorough={"checks": 600, "shards": 16, "cap": 2400}),
     ],
 }
